@@ -400,3 +400,27 @@ Definition is_local_call_format (u : string) : bool :=
    | Some (S _) => false
    | _ => negb (String.eqb r "")
    end).
+
+(* ------------------------------------------------------------------ FindMetadata *)
+
+(* LocalActionsCache.FindMetadata for a well-formed action.yml: the interface of a
+   local action from its declaration (None: a duplicated id makes the metadata unusable) *)
+Definition local_meta (ins : list (string * adecl)) (outs : list string) : option ameta :=
+  match derive_action_inputs ins, derive_action_outputs outs with
+  | Some i, Some o => Some {| am_inputs := i; am_outputs := o; am_skip_inputs := false; am_skip_outputs := false |}
+  | _, _ => None
+  end.
+
+(* LocalReusableWorkflowCache: the interface of a reusable workflow from its
+   declaration; [ast] = true when the entry was written by WriteWorkflowCallEvent
+   (the callee is part of the same run), false when FindMetadata decoded the file *)
+Definition wf_meta (ast : bool) (ins : list (string * wdecl)) (secs : list (string * option bool)) (outs : list string) : wmeta :=
+  if ast then
+    {| wm_inputs := derive_wf_inputs_ast (parse_wc_inputs ins);
+       wm_secrets := derive_wf_secrets_ast secs;
+       wm_outputs := derive_wf_outputs_ast outs |}
+  else
+    {| wm_inputs := derive_wf_inputs_file ins;
+       wm_secrets := derive_wf_secrets_file secs;
+       wm_outputs := derive_wf_outputs_file outs |}.
+
